@@ -16,6 +16,7 @@ ORIG_GEN = D._operator_decomposition_gen
 ORIG_SOLVE = D._construct_and_solve_decomp_graph
 req = json.load(sys.stdin)
 T_START = time.time()
+PREMISE_NOTES = []
 
 
 # ----------------------------------------------------------------------------- building operators
@@ -468,6 +469,7 @@ def subtree_info(sol, node, accf, memo):
             k = cname(abstractify(ch["op"]))
             actual[k] = actual.get(k, 0) + 1
         if declared != actual:
+            PREMISE_NOTES.append({"op": repr(o)[:80], "rule": str(getattr(rule, "name", rule))[:60], "declared": declared, "actual": actual})
             return "declared-resources-differ"
     return exact
 
@@ -648,4 +650,4 @@ for case, r in zip(req["cases"], runs):
         r["exact"] = {"notex": str(e)[:120]}
     except Exception as e:  # noqa
         r["exact"] = {"notex": "failed: " + short(e)}
-print(json.dumps({"runs": runs, "t": round(time.time() - T_START, 2)}))
+print(json.dumps({"runs": runs, "t": round(time.time() - T_START, 2), "premise_notes": PREMISE_NOTES[:40]}))
